@@ -101,6 +101,9 @@ func (pr *prepared) stdEvent(e runlib.Event) bool {
 		rep.Sample(8, e.Data)
 	case "harness-error":
 		rep.Inconclusive("runner harness error on %s: %s", e.Prog, e.Message)
+	case "inconclusive":
+		rep.Inconclusive("%s: %s", e.Prog, e.Message)
+	case "bail":
 	case "missing-program":
 		rep.Inconclusive("program %s is not compiled into the runner", e.Prog)
 	case "begin", "done", "runner-done":
